@@ -274,18 +274,39 @@ impl Prop for C13Prop {
         "C13"
     }
     fn rule(&self) -> String {
-        "Pairs (S, S') evaluated with the same placeholder. S: well-formed trees of every evaluator, near-miss mutants and raw strings. S': whitespace — every one of the 25 White_Space characters at every position of a fixed list of short inputs (exhaustive), and 1..6 random whitespace characters at random positions of random S (incl. inside names and numbers); alias swap at token level (pi/π, sgn/sign/signum, med/median, trunc/truncate, w/lambert_w, asinh/arsinh, acosh/arcosh, atanh/artanh; one site or all sites); for well-formed S additionally one of: ⌊x⌋<->floor(x), ⌈x⌉<->ceil(x), mod(a,b)<->((a)%(b)), pow(a,b)<->((a)^(b)), ^N<->superscript run under C13's side conditions, prefix + at an operand position, redundant round brackets around a subtree. Oracle: identical outcome (same Ok bits with NaNs identified, or Err in both). non-trivial = S' differs from S textually and (S evaluates to Ok, or S has >=2 tokens); distinct by (evaluator, S, S', placeholder).".into()
+        "Pairs (S, S') evaluated with the same placeholder. S: well-formed trees of every evaluator, near-miss mutants and raw strings; long forms (chains, nesting and lists of 2..512 elements) each with one more redundant bracket pair, a prefix +, and a whitespace character; b^N against b with the superscript run for digit strings N of 1..22 digits on bases around 1. S': whitespace — every one of the 25 White_Space characters at every position of a fixed list of short inputs (exhaustive), and 1..6 random whitespace characters at random positions of random S (incl. inside names and numbers); alias swap at token level (pi/π, sgn/sign/signum, med/median, trunc/truncate, w/lambert_w, asinh/arsinh, acosh/arcosh, atanh/artanh; one site or all sites); for well-formed S additionally one of: ⌊x⌋<->floor(x), ⌈x⌉<->ceil(x), mod(a,b)<->((a)%(b)), pow(a,b)<->((a)^(b)), ^N<->superscript run under C13's side conditions, prefix + at an operand position, redundant round brackets around a subtree. Oracle: identical outcome (same Ok bits with NaNs identified, or Err in both). non-trivial = S' differs from S textually and (S evaluates to Ok, or S has >=2 tokens); distinct by (evaluator, S, S', placeholder).".into()
     }
     fn subs(&self, tier: Tier) -> Vec<Sub> {
         let ws_total: u64 = short_inputs().iter().map(|(_, s)| ws_positions_total(s)).sum();
         vec![
             Sub { name: "ws-exhaustive", kind: SubKind::Enum { count: ws_total } },
+            Sub { name: "long", kind: SubKind::Enum { count: super::long::all(true).len() as u64 * 4 } },
+            Sub { name: "superscript-digits", kind: SubKind::Random { cases: tier.pick(100_000, 4_000_000), len: 40 } },
             Sub { name: "ws-random", kind: SubKind::Random { cases: tier.pick(400_000, 20_000_000), len: 160 } },
             Sub { name: "alias", kind: SubKind::Random { cases: tier.pick(300_000, 10_000_000), len: 160 } },
             Sub { name: "rewrite", kind: SubKind::Random { cases: tier.pick(500_000, 20_000_000), len: 160 } },
         ]
     }
-    fn gen_enum(&self, _sub: &str, mut idx: u64, _tier: Tier) -> Option<Case> {
+    fn gen_enum(&self, sub: &str, mut idx: u64, _tier: Tier) -> Option<Case> {
+        if sub == "long" {
+            // every long form with: one more redundant bracket pair, a prefix +, a whitespace character in the
+            // middle, and a redundant pair around its first operand
+            let (ev, s) = super::long::all(true).get((idx / 4) as usize)?.clone();
+            let (s2, kind) = match idx % 4 {
+                0 => (format!("({})", s), "redundant brackets"),
+                1 => (format!("+{}", s), "prefix +"),
+                2 => {
+                    let cs: Vec<char> = s.chars().collect();
+                    let mut v = cs.clone();
+                    v.insert(cs.len() / 2, vocab::WHITE_SPACE[(idx / 4) as usize % 25]);
+                    (v.into_iter().collect(), "whitespace")
+                }
+                _ => (format!("(({}))", s), "redundant brackets"),
+            };
+            let mut case = Case::new(ev, s, Val::default_for(ev));
+            case.aux = vec![s2, kind.to_string()];
+            return Some(case);
+        }
         for (ev, s) in short_inputs() {
             let n = ws_positions_total(s);
             if idx < n {
@@ -308,6 +329,25 @@ impl Prop for C13Prop {
         let ph = pick_ph(ev, c);
         let base = grammar::render(&gen::gen_expr(&p, c, p.max_depth));
         let (s, s2, kind): (String, String, String) = match sub {
+            "superscript-digits" => {
+                // b^N vs b followed by the superscript run, N a digit string of 1..22 digits (leading zeros allowed),
+                // bases around 1 where a huge exponent still gives a finite, non-trivial power
+                let bases = ["2", "10", "1.5", "0.5", "3", "0.9999999999999999", "1.0000000000000002", "0.99999999999", "1.00000000001", "1.000001", "0.999999", "(-1)", "(-0.9999999999999999)", "1.0000000000000004", "7"];
+                let b = bases[c.below(bases.len() as u32) as usize];
+                let n = 1 + c.below(22) as usize;
+                let mut digits = String::new();
+                for i in 0..n {
+                    let d = if i == 0 && c.below(4) != 0 { 1 + c.below(9) } else { c.below(10) };
+                    digits.push((b'0' + d as u8) as char);
+                }
+                if ev == Ev::Cpx || ev == Ev::I64 && b.contains('.') {
+                    return None;
+                }
+                let tail = ["", "+1", "*2", ")"][c.below(3) as usize];
+                let s = format!("{}^{}{}", b, digits, tail);
+                let s2 = format!("{}{}{}", b, vocab::ascii_to_sup(&digits), tail);
+                (s, s2, "superscript".into())
+            }
             "ws-random" => {
                 // well-formed, mutated or raw
                 let s = match c.below(4) {
@@ -369,7 +409,7 @@ impl Prop for C13Prop {
             None => return Ok(()),
         };
         let kind = case.aux.get(1).map(|s| s.as_str()).unwrap_or("?");
-        if sub == "rewrite" {
+        if sub == "rewrite" || sub == "long" || sub == "superscript-digits" {
             // the rewrites are only claimed for well-formed expressions, and the rewritten text must be well-formed too
             if accept(ev, &case.input).is_none() || accept(ev, s2).is_none() {
                 sc.exclude("rewrite did not yield a well-formed pair");
